@@ -1869,6 +1869,12 @@ def make_data(
     "tree_asleep": wp.array(np.full((nworld, mjm.ntree), -(1 + types.MJ_MINAWAKE), dtype=np.int32), dtype=int),
     "tree_awake": wp.array(np.ones((nworld, mjm.ntree), dtype=np.int32), dtype=int),
     "body_awake": wp.array(_initial_body_awake(mjm, nworld, False), dtype=int),
+    # everything is awake initially (same values as reset_data / mj_resetData)
+    "ntree_awake": wp.array(np.full(nworld, mjm.ntree, dtype=np.int32), dtype=int),
+    "nbody_awake": wp.array(np.full(nworld, mjm.nbody, dtype=np.int32), dtype=int),
+    "nv_awake": wp.array(np.full(nworld, mjm.nv, dtype=np.int32), dtype=int),
+    "body_awake_ind": wp.array(np.tile(np.arange(mjm.nbody, dtype=np.int32), (nworld, 1)), dtype=int),
+    "dof_awake_ind": wp.array(np.tile(np.arange(mjm.nv, dtype=np.int32), (nworld, 1)), dtype=int),
   }
   for f in dataclasses.fields(types.Data):
     if f.name in d_kwargs:
